@@ -732,11 +732,19 @@ class NumWalker(Walker):
                 return r
         if self.inline and self.facts is not None and self.depth < 6:
             for nm in (resolved, fname):
-                if nm and self.inline(nm):
+                if nm and (self.inline(nm) or self.private_helper(nm)):
                     bl = self.facts.by_path.get(nm, [])
                     if len(bl) == 1:
                         return self.inline_call(st, bl[0], args)
         return None
+
+    def private_helper(self, nm):
+        """a module-private function of the bit layer (src/impls) without a contract: analysed in the caller's context, so that
+        moving code into a helper neither hides its obligations nor changes the verdict"""
+        if not nm.startswith("impls::") or nm in self.contracts:
+            return False
+        bl = self.facts.by_path.get(nm, [])
+        return len(bl) == 1 and bl[0]["kind"] in ("Fn", "AssocFn") and str(bl[0].get("vis") or "").startswith("Restricted") and not bl[0].get("impl_trait")
 
     inline = None
 
